@@ -4,6 +4,8 @@ import (
 	"fmt"
 	"go/token"
 	"go/types"
+	"math"
+	"math/big"
 
 	"gosym/sym"
 
@@ -41,13 +43,96 @@ func (in *Interp) blobLen(s SliceVal) int {
 	return 2
 }
 
+// ---- exact dyadic-rational floats ----
+// A symbolic float64 is kept as num/Den with Den a power of two, but only while the value
+// is exactly representable as a double (|num| < 2^53): then IEEE arithmetic on it is exact
+// and integer reasoning decides comparisons. Any operation whose result might need rounding
+// ends the path as unsupported (the harness bounds its inputs so that this cannot happen).
+
+var two53 = pow2(53)
+
+func dyadic(c float64) (m *big.Int, e int, ok bool) {
+	if c != c || c > 1e300 || c < -1e300 {
+		return nil, 0, false
+	}
+	fr, exp := math.Frexp(c) // c = fr * 2^exp, 0.5 <= |fr| < 1
+	mi := int64(fr * (1 << 53))
+	m = big.NewInt(mi)
+	e = exp - 53
+	for m.Sign() != 0 && m.Bit(0) == 0 {
+		m.Rsh(m, 1)
+		e++
+	}
+	return m, e, true
+}
+
+func (in *Interp) ratOf(x FloatVal) (num *sym.Term, den *big.Int) {
+	if x.T != nil {
+		return x.T, x.Den
+	}
+	if !x.Known {
+		in.fail("unsupported", "arithmetic on an unknown float")
+	}
+	m, e, ok := dyadic(x.F)
+	if !ok {
+		in.fail("unsupported", "non-finite float")
+	}
+	if e >= 0 {
+		return in.F.BigInt(new(big.Int).Lsh(m, uint(e))), big.NewInt(1)
+	}
+	return in.F.BigInt(m), pow2(uint(-e))
+}
+
+func (in *Interp) exactFloat(num *sym.Term, den *big.Int) FloatVal {
+	f := in.F
+	lim := f.BigInt(two53)
+	tooBig := f.Or(f.Ge(num, lim), f.Le(num, f.Neg(lim)))
+	if in.Branch(tooBig) {
+		in.fail("unsupported", "float64 result may need rounding (outside the exact range of the dyadic model); bound the harness inputs")
+	}
+	return FloatVal{T: num, Den: den}
+}
+
 func (in *Interp) fpBinop(op token.Token, x, y FloatVal) Value {
-	in.fail("unsupported", "fp mode")
+	f := in.F
+	xn, xd := in.ratOf(x)
+	yn, yd := in.ratOf(y)
+	switch op {
+	case token.MUL:
+		return in.exactFloat(f.Mul(xn, yn), new(big.Int).Mul(xd, yd))
+	case token.ADD, token.SUB:
+		// common denominator
+		a := f.Mul(xn, f.BigInt(yd))
+		b := f.Mul(yn, f.BigInt(xd))
+		if op == token.ADD {
+			return in.exactFloat(f.Add(a, b), new(big.Int).Mul(xd, yd))
+		}
+		return in.exactFloat(f.Sub(a, b), new(big.Int).Mul(xd, yd))
+	case token.QUO:
+		in.fail("unsupported", "symbolic float division")
+	}
+	l := f.Mul(xn, f.BigInt(yd))
+	r := f.Mul(yn, f.BigInt(xd))
+	switch op {
+	case token.EQL:
+		return f.Eq(l, r)
+	case token.NEQ:
+		return f.Not(f.Eq(l, r))
+	case token.LSS:
+		return f.Lt(l, r)
+	case token.LEQ:
+		return f.Le(l, r)
+	case token.GTR:
+		return f.Gt(l, r)
+	case token.GEQ:
+		return f.Ge(l, r)
+	}
+	in.fail("unsupported", "float operator "+op.String())
 	return nil
 }
+
 func (in *Interp) intToFP(x *sym.Term, from types.Type) Value {
-	in.fail("unsupported", "fp mode")
-	return nil
+	return in.exactFloat(x, big.NewInt(1))
 }
 
 // deref a pointer value for marshalling
